@@ -498,6 +498,25 @@ func (r *stateRun) apply(op StateOp) {
 			m.Refund = 0
 			m.Logs = 0
 			r.col.Inc("op_flush_and_reopen_cold")
+			// blind writes: slots that were never read through this fresh state are
+			// overwritten under a snapshot, and the snapshot is reverted
+			snap := r.st.Snapshot()
+			for i := 0; i < nAddrs; i++ {
+				a := m.Acc[i]
+				if a == nil || len(a.Storage) == 0 {
+					continue
+				}
+				for sl := 0; sl < nSlots; sl++ {
+					if _, has := a.Storage[sl]; has && (sl+op.Slot)%2 == 0 {
+						r.st.SetState(addrOf(i), slotOf(sl), common.BigToHash(big.NewInt(int64(990+sl))))
+						r.col.Inc("probe_blind_storage_write_reverted_on_a_reopened_state")
+					}
+				}
+				if a.Dirty == 0 {
+					a.Dirty = 2 // modified only inside the reverted region
+				}
+			}
+			r.st.RevertToSnapshot(snap)
 		case "crash":
 			// the process dies before the trie database is flushed: only the disk survives
 			onDisk, _ := r.disk.Has(root[:])
